@@ -67,9 +67,9 @@ def gen_case(rng):
         return gen_two_epochs(rng)
     b = inplace.FBuilder(rng)
     base = b.leaf(rng.choice([(4,), (2, 3), (3, 2), (2, 2, 2), (2, 1, 3), (6,), (2, 3, 2), (3, 2, 2)]), const=False)
+    axes = None
     if rng.random() < 0.4:
         # an intermediate owner, possibly Fortran-ordered -- or, for 3-d data, with permuted strides (contiguous in neither C nor Fortran order)
-        axes = None
         if len(base.shape) == 3 and rng.random() < 0.6:
             axes = rng.choice([[1, 0, 2], [0, 2, 1], [2, 0, 1], [1, 2, 0]])
         t = b.apply("transpose", [base], {"axes": axes}) if rng.random() < 0.7 else base
@@ -77,6 +77,15 @@ def gen_case(rng):
         if o is not None:
             base = o
     views = [base]
+    if len(base.shape) == 3 and base is not None and rng.random() < 0.6:
+        # views whose replay on the gradient is a view only if the gradient has the layout of the base's data: undo the permutation, then flatten
+        inv = None if axes is None else [axes.index(i) for i in range(3)]
+        v1 = b.apply("transpose", [base], {"axes": inv})
+        if v1 is not None:
+            views.append(v1)
+            v2 = b.apply("reshape", [v1], {"shape": [-1]}, spell=rng.choice(["mg", "method"]))
+            if v2 is not None:
+                views.append(v2)
     for _ in range(rng.randint(1, 4)):
         v = inplace.make_view(b, rng, rng.choice(views))
         if v is not None and v.size > 0:
